@@ -1,6 +1,7 @@
 use crate::proto::Driver;
 use crate::{run_op, OpResult, RunCfg};
 
+pub mod asyncop;
 pub mod authurl;
 pub mod cfg;
 pub mod common;
@@ -30,6 +31,7 @@ pub fn dispatch(op: &str, cfg: &RunCfg, d: &mut Driver) -> Option<OpResult> {
         "resp" => run_op::<resp::RespCase>(cfg, d),
         "revoke" => run_op::<revoke::RevokeCase>(cfg, d),
         "dbg" => run_op::<dbg::DbgCase>(cfg, d),
+        "async" => run_op::<asyncop::AsyncCase>(cfg, d),
         "poll" => run_op::<poll::PollCase>(cfg, d),
         "tok" => run_op::<tok::TokCase>(cfg, d),
         "err" => run_op::<err::ErrCase>(cfg, d),
